@@ -469,6 +469,9 @@ func (m *MonC07) Probe(idx int) {
 	// slash every validator by several fractions on branches of the current state
 	for i := 1; i < len(m.R.W.Vals) && !m.R.Halt; i++ {
 		fr := m.probeFracs[(idx+i)%len(m.probeFracs)]
+		if !m.R.valExists(i) {
+			continue // x/staking only slashes validators it knows
+		}
 		rec := m.R.SlashOn(m.R.W.Ctx, m.R.W.Vals[i].Oper, math.LegacyMustNewDecFromStr(fr), false)
 		m.judge(rec)
 	}
@@ -564,6 +567,9 @@ func (m *MonC06) AfterSlash(s *SlashRecord) { m.judge(s) }
 func (m *MonC06) Probe(idx int) {
 	for i := 1; i < len(m.R.W.Vals) && !m.R.Halt; i++ {
 		fr := m.probeFracs[(idx+i)%len(m.probeFracs)]
+		if !m.R.valExists(i) {
+			continue // x/staking only slashes validators it knows
+		}
 		rec := m.R.SlashOn(m.R.W.Ctx, m.R.W.Vals[i].Oper, math.LegacyMustNewDecFromStr(fr), false)
 		m.judge(rec)
 	}
@@ -597,6 +603,9 @@ func (m *MonC08) judge(s *SlashRecord) {
 		switch {
 		case !exists:
 			st = "gone"
+			if dv := s.Pre.Vals[h.Dst]; dv == nil || !dv.Exists {
+				rep.Class("C08.destination-validator-removed") // and its validator was removed by x/staking since
+			}
 		case val.Cmp(ratInt(h.Amount)) < 0:
 			st = "shrunk"
 		}
@@ -651,6 +660,9 @@ func (m *MonC08) Probe(idx int) {
 		for j, fr := range m.fracs {
 			if (idx+i+j)%2 == 1 && m.R.ProbeEvery == 1 {
 				continue // alternate fractions between steps to bound the cost
+			}
+			if !m.R.valExists(i) {
+				continue // x/staking only slashes validators it knows
 			}
 			rec := m.R.SlashOn(m.R.W.Ctx, m.R.W.Vals[i].Oper, math.LegacyMustNewDecFromStr(fr), false)
 			m.judge(rec)
